@@ -1128,6 +1128,31 @@ def default_inline_ok(F, caller_path, callee_path, g):
     """crate-local plain functions / methods with a body, reasonably small; never trait-dispatched externals"""
     return callee_path.startswith("crate::") and g is not None and g.kind != "closure" and len(g.blocks) <= 400
 
+def _resolve_fnptr(blocks, op, depth=0):
+    """("fn"|"closure", path) when the operand is a fn item / non-capturing closure, possibly through copies and pointer
+    coercions of locals that have a single definition in `blocks`; None otherwise"""
+    if depth > 8: return None
+    if op[0] == "c":
+        c = op[1]
+        if c.get("k") == "fn": return ("fn", c.get("resolved") or c["path"])
+        return None
+    if op[0] in ("cp", "mv") and len(op[1]) == 1:
+        l = op[1][0]
+        defs = []
+        for b in blocks:
+            for s in b["s"]:
+                if s[0] == "=" and s[1] and s[1][0] == l:
+                    if len(s[1]) > 1: return None
+                    defs.append(s[2])
+            t = b["t"]
+            if t[0] == "call" and t[3] and t[3][0] == l: return None
+        if len(defs) != 1: return None
+        rv = defs[0]
+        if rv[0] == "use": return _resolve_fnptr(blocks, rv[1], depth + 1)
+        if rv[0] == "cast": return _resolve_fnptr(blocks, rv[2], depth + 1)
+        if rv[0] == "agg" and isinstance(rv[1], dict) and rv[1].get("k") == "closure" and not rv[2]: return ("closure", rv[1]["path"])
+    return None
+
 def inlined(F, fn, keep=(), depth=3, ok=default_inline_ok, _stack=()):
     """A copy of `fn` in which calls to crate-local helpers are replaced by the helper's body (locals and blocks renumbered,
     parameters assigned from the arguments, `return` turned into a jump to the call's continuation).  `keep`: last path
@@ -1152,15 +1177,29 @@ def inlined(F, fn, keep=(), depth=3, ok=default_inline_ok, _stack=()):
         t = b["t"]
         if t[0] != "call" or b.get("cleanup") or dleft <= 0: continue
         cp = callee(t)
+        fnptr_closure = False
+        if not cp and isinstance(t[1], dict) and t[1].get("indirect"):
+            # a call through a fn pointer / closure value that (after splicing) has exactly one definition in this body:
+            # `helper(|v| &mut v.post, ..)` -> inside the helper `counter(&mut self.vars)`
+            r = _resolve_fnptr(blocks, t[1]["indirect"])
+            if r is not None:
+                cp = r[1]; fnptr_closure = r[0] == "closure"
         if not cp or cp in stack: continue
         if cp in keep or cp.rsplit("::", 1)[-1] in keep: continue
         g = F.fn(cp)
+        if fnptr_closure and g is not None and g.kind == "closure" and len(t[2]) == g.nargs - 1 and len(g.blocks) <= 200:
+            # non-capturing closure coerced to a fn pointer: parameters 2.. are the call's arguments
+            t = list(t); t[2] = [["c", {"ty": "()", "k": "zst"}]] + list(t[2])
+            b = dict(b); b["t"] = t; blocks[bi] = b
+            ok_ = lambda *a: True
+        else:
+            ok_ = ok
         # a closure called directly (`let labelled = |s| ..; labelled("major")`): Fn::call(&closure, (args,)) with the body's own path
         closure_call = g is not None and g.kind == "closure" and str(t[1].get("decl") or "").rsplit("::", 2)[-2:] in (["Fn", "call"], ["FnMut", "call_mut"], ["FnOnce", "call_once"]) and len(t[2]) == 2
         if closure_call:
             if len(g.blocks) > 200: continue
         else:
-            if not ok(F, fn.path, cp, g): continue
+            if not ok_(F, fn.path, cp, g): continue
             if len(t[2]) != g.nargs: continue
         L = len(locals_); B = len(blocks)
         locals_.extend(g.locals)
